@@ -184,7 +184,7 @@ pub fn gen_base(seed: u64, idx: u64) -> Plan {
     Plan {
         property: "C17".into(),
         seed: mix(seed, idx),
-        server: ServerPlan { mode, body_limit: 1024, api: ApiKind::Work, rt_override: None },
+        server: ServerPlan { mode, body_limit: 1024, api: ApiKind::Work, rt_override: None, tls: false },
         conns,
         shutdown: Some(ShutdownPlan {
             trigger: CloseTrigger::AfterEvent(u64::MAX),
